@@ -56,7 +56,8 @@ class C05(object):
                          'embedded.in_global_equation', 'placeholders.handed_out', 'embedded.form.term_product',
                          'embedded.form.term_ratio', 'embedded.form.string_rhs', 'embedded.form.exogenous', 'late_sector.declared',
                          'codes_generated_mid_construction', 'built_by_step_runner', 'cross_rates.requested_before_build', 'locals_named_like_math_symbols.declared',
-                         'rebuilt_with_names_kept_from_before_first_build')
+                         'rebuilt_with_names_kept_from_before_first_build',
+                         'equation_object_shared_by_sectors.declared')
 
     def n_cases(self, tier):
         return 32 if tier == 'quick' else 1200
@@ -118,6 +119,23 @@ class C05(object):
                         hsec.AddVariable(nm, 'a local variable named like a library symbol', val)
                     hsec.AddVariable('USES_LOCALS', 'refers to them by their local names', 'pi*2.0 + gamma - e + tau*sum + id')
                     rec.count('locals_named_like_math_symbols.declared')
+            if case['eseed'] % 2 == 0 and len(sectors) >= 3:
+                # ONE Equation object (a behavioural rule written once) handed to several sectors: each sector's copy
+                # must be qualified with that sector's own names
+                from sfc_models.equation import Equation as _Eq
+                rule = _Eq('SPEND_RULE', 'a rule shared by several sectors', 'RATE_L*WEALTH_L + 1.0')
+                hosts = rng.sample(sectors, 3)
+                for j, (hk, hsec2) in enumerate(hosts):
+                    if 'RATE_L' in hsec2.EquationBlock:
+                        continue
+                    hsec2.AddVariable('RATE_L', 'local rate', repr(0.25 * (j + 1)))
+                    hsec2.AddVariable('WEALTH_L', 'local wealth', repr(10.0 * (j + 2)))
+                    if j % 2 == 0:
+                        hsec2.AddVariableFromEquation(rule)
+                    else:
+                        hsec2.AddVariable('SPEND_RULE', 'a rule shared by several sectors', rule)
+                    embedded.append((hsec2, 'SPEND_RULE', hsec2, 'RATE_L', False, 'shared_rule', (hsec2, 'WEALTH_L')))
+                rec.count('equation_object_shared_by_sectors.declared')
             # cross rates requested by user code before the build (the build itself asks for the same rates later,
             # when it converts cross-currency flows)
             ext = mod.ExternalSector
@@ -393,7 +411,11 @@ class C05(object):
                 if was_ph:
                     rec.count('embedded.was_placeholder')
                 tv = float(val[target])
-                if form == 'blob':
+                if form == 'shared_rule':
+                    s2, l2 = second
+                    fc2 = (s2.Parent.Code + '_' + s2.Code) if multi else s2.Code
+                    exp = tv * float(val[fc2 + '__' + l2]) + 1.0
+                elif form == 'blob':
                     exp = 2.0 * tv + 1.0
                 elif form == 'term_product':
                     exp = tv * 0.5
